@@ -7,10 +7,11 @@ ID = 'C09'
 RULE = ('one record per history of {input(chunk), result, raw_result, reset, clone} on HMAC (6 digests), Poly1305, keyed BLAKE2b/2s through the Mac '
         'trait and every legacy digest through the Digest trait; model = (key, bytes since reset, finalized, last result): a first result must '
         'be the MAC/digest of the bytes since reset (same key after reset), a repeated result must be identical or panic, input after result must '
-        'panic; exhaustive histories to depth 3 (quick) / 4 (thorough) over an 8-symbol alphabet plus random histories to length 30; '
+        'panic; the legacy BLAKE2 objects are also reset / re-keyed through their own reset() and reset_with_key() (empty and non-empty keys) between trait resets; a result() refused for a wrong-sized buffer is caught and the same object is used again (it may then panic or answer correctly, never anything else); exhaustive histories to depth 3 (quick) / 4 (thorough) over an 8-symbol alphabet plus random histories to length 30; '
         'distinct = (type, op-kind sequence with length classes)')
 ASSUMPTIONS = ['MAC reference functions of C05/C08; a panic ends the history (the object is retired)']
 THOROUGH_ROUNDS = 40   # thorough tier: generator passes with derived seeds (runner.gen_rounds)
+EXTRA_CFGS = ['f32']   # the workload is also executed by the force-32bits build of the library; results must not change (runner.standard_check)
 FLOORS = {'evaluations': 8000, 'distinct': 4000,
           'coverage': {'result:repeated:len%16==0': 50, 'input-after-result': 50, 'result:first:len%16==0:after-reset': 50}}
 
@@ -33,6 +34,15 @@ def render(rng, seq, bs, can_clone, outlen, op0):
             steps.append(('rr.%d.%d' % (cur, outlen)) if op0 == 'mac' else 'r.%d.%d' % (cur, outlen))
         elif sym == 'x':
             steps.append('x.%d' % cur)
+        elif sym == 'xi':
+            steps.append('xi.%d' % cur)
+        elif sym == 'xk':
+            steps.append('xk.%d.%s' % (cur, rng.data(rng.choice([0, 0, 1, 16, 32]))))
+        elif sym == 'bad':
+            n = rng.choice([0, outlen - 1, outlen + 1, 2 * outlen]) if outlen > 1 else rng.choice([0, 2])
+            if op0 == 'mac' and outlen == 16 and n > 16:
+                n = rng.choice([0, 1, 15])         # Poly1305 accepts longer buffers
+            steps.append(('rrc.%d.%d' % (cur, n)) if op0 == 'mac' else 'rc.%d.%d' % (cur, n))
         elif sym == 'c':
             if can_clone:
                 steps.append('c.%d.%d' % (cur, nobj)); cur = nobj; nobj += 1
@@ -93,6 +103,49 @@ def gen(tier, seed):
             yield 'mac %s %s %s' % (ty, key(), ' '.join(render(rng, seq + ['x', ('i', rng.choice([0, 5, bs])), 'r'] if rng.below(2) else seq + ['r'], bs, can_clone, outlen, 'mac')))
         for _ in range(nrand):
             yield 'mac %s %s %s' % (ty, key(), ' '.join(render(rng, random_seq(rng, bs, rng.rng(4, 30)) + ['r'], bs, can_clone, outlen, 'mac')))
+    # (a) the legacy BLAKE2 objects also have their own reset() / reset_with_key(): mixed with the trait resets; (b) a result() refused for a
+    # wrong-sized buffer, caught, and the same object used again
+    for ty, keyspec, bs, can_clone in MACS:
+        outlen = 16 if ty == 'poly1305' else (o.digest_fn(ty[5:])[2] if ty.startswith('hmac') else int(ty.split(':')[1]))
+        legacy_b2 = ty.startswith(('b2bmac', 'b2smac'))
+        for _ in range((600 if thorough else 120) if legacy_b2 else (200 if thorough else 40)):
+            seq = []
+            for _ in range(rng.rng(3, 14)):
+                r = rng.below(100)
+                if r < 40:
+                    seq.append(('i', rng.choice([0, 1, 16, bs - 1, bs, bs + 1, rng.rng(0, 2 * bs)])))
+                elif r < 55:
+                    seq.append('r')
+                elif r < 65:
+                    seq.append('x')
+                elif r < 80:
+                    seq.append(rng.choice(['xi', 'xk']) if legacy_b2 else 'bad')
+                elif r < 92:
+                    seq.append('bad')
+                else:
+                    seq.append('c')
+            k = rng.data(32) if keyspec == 32 else rng.data(rng.choice([1, 16, 32]))
+            yield 'mac %s %s %s' % (ty, k, ' '.join(render(rng, seq + ['r', 'x', ('i', rng.choice([0, 5, bs])), 'r'], bs, can_clone, outlen, 'mac')))
+    for d in DIGS:
+        _, bs, outlen = o.digest_fn(d)
+        legacy_b2 = d.startswith('blake2')
+        for _ in range((300 if thorough else 60) if legacy_b2 else (100 if thorough else 20)):
+            seq = []
+            for _ in range(rng.rng(3, 12)):
+                r = rng.below(100)
+                if r < 40:
+                    seq.append(('i', rng.choice([0, 1, bs - 1, bs, bs + 1, rng.rng(0, 2 * bs)])))
+                elif r < 55:
+                    seq.append('r')
+                elif r < 65:
+                    seq.append('x')
+                elif r < 80:
+                    seq.append(rng.choice(['xi', 'xk']) if legacy_b2 else 'bad')
+                elif r < 92:
+                    seq.append('bad')
+                else:
+                    seq.append('c')
+            yield 'dig %s %s' % (d, ' '.join(render(rng, seq + ['r', 'x', ('i', rng.choice([0, 5, bs])), 'r'], bs, True, outlen, 'dig')))
     for d in DIGS:
         _, bs, outlen = o.digest_fn(d)
         for seq in sequences(alphabet(bs), depth if thorough else 2):
